@@ -18,6 +18,7 @@ class Summary:
         self.param_avs = {}
         self.tracked = {}
         self.crashed = None
+        self.visited = set()
 
 
 class Interp(ValueOps, ExprMixin, StmtMixin, CallMixin):
@@ -42,6 +43,7 @@ class Interp(ValueOps, ExprMixin, StmtMixin, CallMixin):
         self.cur_stmt = fi.node
         self.self_cls = f'{fi.module}.{fi.cls}' if fi.cls else None
         self.param_avs = {}
+        self.visited = set()
         self.typed_origins = set()       # origins of typed parameters: their contents are exactly what the heap says
 
     def setup(self):
@@ -114,4 +116,5 @@ class Interp(ValueOps, ExprMixin, StmtMixin, CallMixin):
         S.callbacks = self.callbacks_used
         S.param_avs = self.param_avs
         S.tracked = self.tracked_dicts
+        S.visited = self.visited
         return S
